@@ -62,6 +62,13 @@ Proof.
 Qed.
 Print Assumptions C14_order_independent_multiset.
 
+(* duplicates: acquisitions that share their label tuple appear in the output in the order they have in the file (np.lexsort is
+   stable); together with C14_sorted this determines the output completely also when label tuples repeat *)
+Theorem C14_stable_among_equal_labels : forall h l key,
+  filter (fun a => list_eqb (labels a) key) (load_sorted h l) = filter (fun a => list_eqb (labels a) key) (kept h l).
+Proof. intros h l key. exact (isort_stable key (kept h l)). Qed.
+Print Assumptions C14_stable_among_equal_labels.
+
 (* acquisitions rejected by the flag filter may be interleaved anywhere *)
 Theorem C14_filter_independent : forall h l1 r l2, is_image_acquisition r = false -> load h (l1 ++ r :: l2) = load h (l1 ++ l2).
 Proof. exact load_filter_indep. Qed.
@@ -166,4 +173,13 @@ Proof. vm_compute. reflexivity. Qed.
 
 Example C14_example_cartesian :
   map (cartesian 1 0 (mkReadout 3 2 1 (flag_mask 22) 4)) [0; 1; 2; 3] = [(2, 2, 2); (2, 2, 1); (2, 2, 0); (2, 2, -1)].
+Proof. vm_compute. reflexivity. Qed.
+
+(* observation (behaviour of the code, mirrored by the model and compared on real files; outside the hypotheses of
+   C14_grid_position): repetition 0 has 1 x 2 lines, repetition 1 has 2 x 2 lines - every (other, k2) pair has 2 lines, so the
+   first branch of the shape decision is taken with n_k2 = min count // n_k1 = 1 and the 6 readouts are reshaped to (3, 1, 2):
+   still sorted by their labels (C14_sorted), but "other" position 2 holds k2 = 1 of repetition 1 *)
+Example C14_example_unequal_counts_per_other :
+  load None [ex_acq 0 0 0 0 1 1; ex_acq 1 0 0 0 1 2; ex_acq 0 0 1 0 1 3; ex_acq 1 0 1 0 1 4; ex_acq 0 1 1 0 1 5; ex_acq 1 1 1 0 1 6]
+  = inr ((3, 1, 2), [1; 2; 3; 4; 5; 6], [101; 102; 103; 104; 105; 106], [201; 202; 203; 204; 205; 206]).
 Proof. vm_compute. reflexivity. Qed.
